@@ -16,7 +16,8 @@ RULE = (
     "Every template case (real and complex argument mixes) in which both make_jvp and make_vjp return: with generated "
     "tangents v1,v2, cotangents g1,g2 and real scalars a,b: Re<g, jvp(v)> == Re<vjp(g), v> (the documented pairing, which "
     "for complex data encodes the conjugation convention), jvp(a v1 + b v2) == a jvp(v1) + b jvp(v2), vjp(a g1 + b g2) == "
-    "a vjp(g1) + b vjp(g2); tolerance 1e-10 * (||g|| ||Jv|| + ||J^T g|| ||v|| + 1) - no numerical differentiation involved. "
+    "a vjp(g1) + b vjp(g2); tolerance 1e-10 * (||g|| ||Jv|| + ||J^T g|| ||v|| + 1) - no numerical differentiation involved; non-finite results in exactly one "
+    "mode are a failure (in both: inconclusive). "
     "Compositions: generated array programs (vh/progs.py). Non-trivial = both modes returned non-zero results; distinct "
     "by (template, feature tuple, argsel, carrier, complex mask)."
 )
@@ -61,8 +62,14 @@ def check_pair(f_ag, x, xa, y0a, vseed, sample, bucket, key, labels=()):
     if t1.shape != y0a.shape or r1.shape != xa.shape:
         return fail("wrong_shape", f"tangent {t1.shape} for output {y0a.shape}; cotangent {r1.shape} for argument {xa.shape}",
                     bucket("wrong_shape"), sample=sample)
-    if not all(onp.all(onp.isfinite(a_)) for a_ in arrs):
-        return Outcome("inconclusive", detail="non-finite derivative (value check is C01/C02's)", sample=sample)
+    fin_t = all(onp.all(onp.isfinite(a_)) for a_ in (t1, t2, t12))
+    fin_r = all(onp.all(onp.isfinite(a_)) for a_ in (r1, r2, r12))
+    if fin_t != fin_r:
+        # one mode is finite for every probe, the other is not: whatever J is, the two cannot be adjoint to each other
+        return fail("not_adjoint", f"{'forward' if fin_r else 'reverse'} mode returns non-finite derivatives where the other mode is finite",
+                    bucket("one_mode_nonfinite"), sample=sample)
+    if not fin_t:
+        return Outcome("inconclusive", detail="non-finite derivative in both modes (value check is C01/C02's)", sample=sample)
     # adjointness
     lhs, rhs = rdot(g1, t1), rdot(r1, v1)
     scale = _nrm(g1) * _nrm(t1) + _nrm(r1) * _nrm(v1) + 1.0
